@@ -82,6 +82,13 @@ def main():
     scratch = tempfile.mkdtemp(prefix=f'sv-{name}-', dir='/tmp')
     os.rmdir(scratch)
     meta = {'property': prop, 'seed': s, 'ran': []}
+    prev = {}
+    if os.path.exists(os.path.join(dst, 'meta.json')):
+        prev = json.load(open(os.path.join(dst, 'meta.json')))
+    if '--round' in sys.argv:
+        meta['round'] = int(sys.argv[sys.argv.index('--round') + 1])
+    elif 'round' in prev:
+        meta['round'] = prev['round']
     try:
         rc, out = sh(f'git -C /repo worktree add --detach {scratch} HEAD -q')
         meta['repo_head'] = sh('git -C /repo rev-parse --short HEAD')[1].strip()
@@ -141,6 +148,12 @@ def main():
             meta.get('demo_patched_rc', 0) != 0 and
             meta.get('baseline_tests_still_pass'))
         meta['detected'] = meta.get('check_rc') == 1
+        # verdict of the very first run against this seed, before any
+        # strengthening of the checks; never overwritten afterwards
+        meta['first_detected'] = prev.get('first_detected',
+                                          meta['detected'])
+        meta['first_other'] = prev.get(
+            'first_other', sorted(meta.get('other_checks_reporting', {})))
     finally:
         sh(f'git -C /repo worktree remove --force {scratch}')
         shutil.rmtree(scratch, ignore_errors=True)
